@@ -2,7 +2,7 @@
 From Coq Require Import ZArith QArith List Permutation.
 From Coq Require Import Floats.PrimFloat.
 From PAFCommon Require Import PyFloat PyNum Lists.
-From PAFC16 Require Import Gen Model Proofs.
+From PAFC16 Require Import Gen Lib Model Proofs Proofs2.
 Import ListNotations.
 
 (* n^d cells, each with d coordinates (exact arithmetic, every d and n >= 1) *)
@@ -18,6 +18,42 @@ Theorem C16_rowmajor : forall (A : Type) (c : list A) (rest : list (list A)) (i 
   (i < length c)%nat -> (j < length (cart rest))%nat ->
   nth (i * length (cart rest) + j) (cart (c :: rest)) [] = nth i c da :: nth j (cart rest) [].
 Proof. exact @cart_row_major. Qed.
+
+(* row-major order tied to the grid: the k-th job's lattice point is the multi-index (base-n digits) of k,
+   and distinct job numbers are distinct multi-indices *)
+Theorem C16_kth_is_digits : forall (d : nat) (n : Z) (k : nat), (1 <= n)%Z -> (k < Z.to_nat n ^ d)%nat ->
+  nth k (grid_lists_Q d n) [] =
+  map (fun i => ml_value_Q (gs_step_size_Q n) (Z.of_nat i) false) (digits (Z.to_nat n) d k).
+Proof. exact grid_nth_Q. Qed.
+
+Theorem C16_lattice_value : forall n k : Z, (1 <= n)%Z ->
+  ml_value_Q (gs_step_size_Q n) k false == inject_Z k / inject_Z n.
+Proof. exact ml_value_frac_Q. Qed.
+
+Theorem C16_digits_injective : forall n d k k' : nat, (k < n ^ d)%nat -> (k' < n ^ d)%nat ->
+  digits n d k = digits n d k' -> k = k'.
+Proof. exact digits_injective. Qed.
+
+Theorem C16_digits_below_n : forall n d k i : nat, (k < n ^ d)%nat -> In i (digits n d k) -> (i < n)%nat.
+Proof. exact digits_lt. Qed.
+
+(* multi-dimensional tiling: the cell fitted by job k is, in dimension i, the (digit i of k)-th 1-D cell *)
+Theorem C16_cells_of_job : forall (n : Z) (priors : list (Q * Q)) (k : nat),
+  (1 <= n)%Z -> (k < Z.to_nat n ^ length priors)%nat ->
+  nth k (cells_Q n priors) [] =
+  map2 (fun p i => cell1_Q n p (Z.of_nat i)) priors (digits (Z.to_nat n) (length priors) k).
+Proof. exact cells_nth_Q. Qed.
+
+(* the limits / centres reported by GridSearchResult (recomputed from the lower limits with step 1/side and
+   mapped through a uniform prior) are those of the cell fitted *)
+Theorem C16_reported_limits : forall (n : Z) (lo hi : Q) (k : Z), (1 <= n)%Z ->
+  let v := ml_value_Q (gs_step_size_Q n) k false in
+  let u := gsr_upper_Q v (gsr_step_size_Q n) in
+  lo + v * (hi - lo) == fst (cell1_Q n (lo, hi) k) /\
+  lo + u * (hi - lo) == snd (cell1_Q n (lo, hi) k) /\
+  lo + gsr_centre_Q v u * (hi - lo) == (fst (cell1_Q n (lo, hi) k) + snd (cell1_Q n (lo, hi) k)) / inject_Z 2 /\
+  u == inject_Z (k + 1) / inject_Z n.
+Proof. exact reported_limits_Q. Qed.
 
 (* the cells of one grid dimension tile [lo, hi]: first starts at lo, last ends at hi,
    consecutive cells share their boundary, cells are non-empty and ordered *)
@@ -50,6 +86,17 @@ Theorem C16_kth_partial : forall (R : Type) (total : nat) (arrivals : list (Z * 
   (~ In (Z.of_nat k) (map fst arrivals) -> nth k (rb_run total arrivals) None = None).
 Proof. exact @rb_partial. Qed.
 
+(* re-delivery of a job: the latest result delivered for job k is the one reported *)
+Theorem C16_kth_latest_wins : forall (R : Type) (total : nat) (before after : list (Z * R)) (k : nat) (r : R),
+  (k < total)%nat -> ~ In (Z.of_nat k) (map fst after) ->
+  nth k (rb_run total (before ++ (Z.of_nat k, r) :: after)) None = Some r.
+Proof. exact @rb_latest. Qed.
+
+(* ResultBuilder.results pairs the k-th summary with the k-th job's paths *)
+Theorem C16_results_paths : forall (R : Type) (total : nat) (arrivals : list (Z * R)) (k : nat), (k < total)%nat ->
+  nth k (rb_results total arrivals) None = option_map (fun r => (r, Z.of_nat k)) (nth k (rb_run total arrivals) None).
+Proof. exact @rb_results_nth. Qed.
+
 (* sensitivity mapping: per-dimension step counts; results kept sorted by job number *)
 Theorem C16_sensitivity_count : forall ns : list Z, Forall (fun n => (1 <= n)%Z) ns ->
   length (sens_lists_Q ns) = fold_right Nat.mul 1%nat (map Z.to_nat ns).
@@ -58,6 +105,40 @@ Proof. exact sens_count_lists_Q. Qed.
 Theorem C16_sensitivity_sorted : forall (R : Type) (arrivals : list (Z * R)),
   sorted_by_number (sens_collect arrivals) /\ Permutation arrivals (sens_collect arrivals).
 Proof. exact @sens_collect_sorted. Qed.
+
+(* positional form: whatever the completion order, entry k of the collected results is job k's *)
+Theorem C16_sensitivity_kth_any_order : forall (R : Type) (rs : list R) (arrivals : list (Z * R)),
+  Permutation arrivals (numbered rs) -> map snd (sens_collect arrivals) = rs.
+Proof. exact @sens_collect_positional. Qed.
+
+(* row-major order with per-dimension step counts: job k's lattice point is the mixed-radix multi-index of k *)
+Theorem C16_sensitivity_kth_is_digits : forall (ns : list Z) (k : nat),
+  Forall (fun n => (1 <= n)%Z) ns -> (k < prod (map Z.to_nat ns))%nat ->
+  nth k (sens_lists_Q ns) [] =
+  map2 (fun n i => ml_value_Q (sens_step_size_Q n) (Z.of_nat i) true) ns (mdigits (map Z.to_nat ns) k).
+Proof. exact sens_nth_Q. Qed.
+
+Theorem C16_mixed_radix_digits : forall (ns : list nat) (k : nat), (k < prod ns)%nat ->
+  Forall2 (fun i n => (i < n)%nat) (mdigits ns k) ns /\ undigits ns (mdigits ns k) = k.
+Proof. exact mixed_radix_ok. Qed.
+
+(* _perturb_models with limit_scale = 1: cell k of a dimension with n steps is [k/n, (k+1)/n] (clamps inactive),
+   i.e. mapped through a uniform prior it is exactly grid-search cell k: the same tiling rules apply *)
+Theorem C16_sensitivity_cell : forall n k : Z, (1 <= n)%Z -> (0 <= k < n)%Z ->
+  fst (sens_cell1_Q 1 n k) == inject_Z k / inject_Z n /\ snd (sens_cell1_Q 1 n k) == inject_Z (k + 1) / inject_Z n.
+Proof. exact sens_cell1_exact_Q. Qed.
+
+Theorem C16_sensitivity_same_cells : forall (n k : Z) (lo hi : Q), (1 <= n)%Z -> (0 <= k < n)%Z ->
+  lo + fst (sens_cell1_Q 1 n k) * (hi - lo) == fst (cell1_Q n (lo, hi) k) /\
+  lo + snd (sens_cell1_Q 1 n k) * (hi - lo) == snd (cell1_Q n (lo, hi) k).
+Proof. exact sens_same_cells_Q. Qed.
+
+(* any limit_scale >= 0: the scaled cell stays inside [0, 1] and contains the centre the data were simulated at *)
+Theorem C16_sensitivity_limit_scale : forall (ls : Q) (n k : Z), 0 <= ls -> (1 <= n)%Z -> (0 <= k < n)%Z ->
+  let c := ml_value_Q (sens_step_size_Q n) k true in
+  0 <= fst (sens_cell1_Q ls n k) /\ fst (sens_cell1_Q ls n k) <= c /\
+  c <= snd (sens_cell1_Q ls n k) /\ snd (sens_cell1_Q ls n k) <= 1.
+Proof. exact sens_cell1_bounds_Q. Qed.
 
 (* the reported shape is (n,...,n) whenever the d-th root is computed to within 1/2 *)
 Theorem C16_shape : forall (pw : Q -> Q -> Q) (n d : Z),
@@ -75,3 +156,8 @@ Print Assumptions C16_tiling_contiguous.
 Print Assumptions C16_kth_any_order.
 Print Assumptions C16_shape.
 Print Assumptions C16_count_float.
+Print Assumptions C16_kth_is_digits.
+Print Assumptions C16_cells_of_job.
+Print Assumptions C16_reported_limits.
+Print Assumptions C16_sensitivity_kth_any_order.
+Print Assumptions C16_sensitivity_same_cells.
